@@ -378,4 +378,5 @@ def check(ctx: Ctx, col: Collector, tier: str) -> None:
     from .shared import share
     share(ctx, col, "C17", {"C17.RECURSE", "C17.FILTER"}, "inherited members are emitted exactly once")
     share(ctx, col, "C04", {"C04.REEXPORT-GUARDS", "C04.REEXPORT-TABLE", "C04.PUBLICITY-TABLE"}, "nothing public is dropped: the publicity decision is the reference one")
+    share(ctx, col, "C12", {"C12.ATTR-DEDUP-SCOPE"}, "an attribute is dropped as 'already defined' only if its own class already has it")
     col.assume("that both shortest-re-export computations (string matching over arbitrary names) pick the same target, and name collisions after conversion, are not decided")
